@@ -98,7 +98,7 @@ P("C26", [("K4", None), ("V0", None)],
   "Assumed: every TyData comes from intern_ty; rigid AssociatedType/OpaqueType count as applications; STILL_FURTHER_SPECIALIZABLE masked out.",
   "contract-based verification: Kani harness contracts per enum variant (symbolic child flags) + Verus induction lemma")
 
-P("C16", [("K8", None), ("K1", r"^k1_(c_bv_shifted_in_from|c_db_shifted_in_from|l_universe)"), ("V21", None), ("V30", None)],
+P("C16", [("K8", None), ("K1", r"^k1_(c_bv_shifted_in_from|c_db_shifted_in_from|l_universe)"), ("V21", None), ("V30", None), ("V31", None)],
   "model_checking",
   "Partial (leaf rules of the first sentence + the second sentence). Verus proves on the verbatim text of the Canonicalizer's leaf methods that an unbound unknown of any kind is replaced by "
   "the innermost bound variable (seen from under the binders already entered) whose index is the position of its UNION-FIND ROOT in free_vars - reused when the class was met before, appended with the "
@@ -163,11 +163,11 @@ P("C11", [("K12", r"_q"), ("V5", None), ("V4", None), ("V19", None), ("V22", Non
   "its own table's queue and empties the stack, so the forest a later solve sees has lost nothing; that the forest then answers like a fresh one is a history property and is not reached (see C10).",
   "contract-based verification: Kani harness contract over enumerated streams + Verus on extracted text")
 
-P("C01", [("K12", None), ("V1", None), ("V3", None), ("V18", None), ("V23", None), ("V24", None)],
+P("C01", [("K12", None), ("V1", None), ("V3", None), ("V18", None), ("V23", None), ("V24", None), ("V31", None)],
   "model_checking",
   "Partial (aggregation contract only): Kani runs the real make_solution on every answer stream up to the bound: Unique iff exactly one unconditional answer, 'no solution' iff the "
   "stream is empty, nothing definite after a flounder or an interruption, the Unique payload is the stream's answer unchanged; Verus proves combine never manufactures a Unique, "
-  "that the recursive fixed point starts from bottom/top as the semantics requires, and that the tabling step solve_goal records every dependency on a provisional answer (V18), and that the answer solve_new_subgoal leaves for a goal is a fixed point of its last iteration unless that iteration did not depend on the goal itself (V23), and is made permanent exactly when its SCC is complete (V24). BOUNDED (stream length <= 2/3); Verus parts unbounded.",
+  "that the recursive fixed point starts from bottom/top as the semantics requires, and that the tabling step solve_goal records every dependency on a provisional answer (V18), and that the answer solve_new_subgoal leaves for a goal is a fixed point of its last iteration unless that iteration did not depend on the goal itself (V23), and is made permanent exactly when its SCC is complete (V24). For negative goals, Verus checks that the folder which turns universally quantified names into existentials before a `not { }` is refuted overrides the callback of EVERY kind of placeholder (V31: a missing one falls back to the trait default, which keeps the name; refuted for constants on the pinned tree - genuine defect `forall<const N> { not { S<N>: Trait } }` = Unique, repaired by /repo commit e224150). BOUNDED (stream length <= 2/3); Verus parts unbounded.",
   "Assumed: the answer stream itself is sound and complete, i.e. SLG resolution and the recursive search against the program's logical meaning — the bulk of C01 — are NOT verified "
   "(no function of chalk has the logical meaning as an argument or view; logic.rs is out of reach of both tools).",
   "contract-based verification: Kani harness contract over enumerated streams + Verus on extracted text")
